@@ -332,8 +332,42 @@ def m_hasattr(it, fr, o, name):
     return hasattr(o, name)
 
 
+class FileName:
+    """a file name whose content is given as ghost state: the list of its lines (symbolic strings)"""
+
+    def __init__(self, lines):
+        self.lines = lines
+
+    def __repr__(self):
+        return 'FileName<%d lines>' % len(self.lines)
+
+
+class FileVal:
+    def __init__(self, lines):
+        self.lines = lines
+
+
 def m_open(it, fr, *a, **k):
+    if a and isinstance(a[0], FileName) and (len(a) == 1 or a[1] in ('r', 'rt')):
+        it.trusted_used.add('open(name).readlines(): the lines of the file are the ghost content attached to the name (file system not modelled)')
+        return FileVal(a[0].lines)
     return Opaque('file')
+
+
+def strip_seq(it, base):
+    """str.strip() without arguments: the slice [a, b) where a is the first and b-1 the last non-white-space position (a = b = n when
+    there is none). a and b are functions of the string, so the same string always gives the same constants"""
+    s = ops.to_sseq(base)
+    key = '%d.%d.%d' % (s.arr.get_id(), z3.simplify(s.off).get_id(), z3.simplify(s.n).get_id())
+    a, b = z3.Int('strip.lo!' + key), z3.Int('strip.hi!' + key)
+    j = z3.Int('j!strip')
+    ws = lambda i: isspace_code(z3.Select(s.arr, s.off + i))
+    it.assume(z3.And(0 <= a, a <= b, b <= s.n,
+                     z3.ForAll([j], z3.Implies(z3.And(0 <= j, j < a), ws(j))),
+                     z3.ForAll([j], z3.Implies(z3.And(b <= j, j < s.n), ws(j))),
+                     z3.Implies(a < b, z3.And(z3.Not(ws(a)), z3.Not(ws(b - 1)))),
+                     z3.Implies(a == b, a == s.n)))
+    return SSeq(s.arr, z3.simplify(s.off + a), z3.simplify(b - a), 'str', 'char')
 
 
 # --------------------------------------------------------------------------- numpy
@@ -521,6 +555,12 @@ def value_method(it, fr, base, name, args, kwargs):
         if name == 'shuffle':
             raise Unsupported('shuffle handled by the interpreter')
         return rand_method(it, fr, base, name, args, kwargs), base, False
+    if isinstance(base, FileVal):
+        if name == 'readlines' and not args:
+            return list(base.lines), base, False
+        if name in ('close', '__enter__', '__exit__'):
+            return None, base, False
+        raise Unsupported('file method ' + name)
     # ---- strings
     if isinstance(base, (str, SChar)) or (isinstance(base, SSeq) and base.kind == 'str'):
         return str_method(it, fr, base, name, args, kwargs)
@@ -622,6 +662,8 @@ def str_method(it, fr, base, name, args, kwargs):
         s = ops.to_sseq(base)
         j = z3.Int('j!up')
         return SSeq(LAM(j, f(z3.Select(s.arr, j))), s.off, s.n, 'str', 'char'), base, False
+    if name == 'strip' and not args and isinstance(base, SSeq):
+        return strip_seq(it, base), base, False
     if name == 'isspace':
         if isinstance(base, SChar):
             return ops.mk(isspace_code(base.e), 'bool'), base, False
